@@ -782,3 +782,14 @@ def run(ctx, rec):
 
 def replay(w, rec):
     rec.inconclusive.append("C14 pairs depend on the process history: replay by seed (VERIF_SEED=<seed> ./check C14)")
+
+
+# workloads added after the seventh round of seeded changes (DESIGN section 9): part of the rule of this check
+_RULE_ADDENDUM = "every prefix ends with M's declarations under in-place bound edits and M's skeleton at a lower degree; directed problem pairs per generator family / layout"
+_info_base = info
+
+
+def info(tier):  # noqa: F811
+    d = _info_base(tier)
+    d["rule"] = d["rule"] + "; " + _RULE_ADDENDUM
+    return d
